@@ -186,6 +186,8 @@ class Writer:
                 return Seq([('RAW', self.u(recv, env, mod) + '.encode()')])
             if fn == "b''.join" and len(e.args) == 1:
                 g = e.args[0]
+                if isinstance(g, ast.Name) and isinstance(env.get(g.id), Seq) and g.id in getattr(self, 'listacc', ()):
+                    return Seq(env[g.id])        # a list of byte pieces built with .append(): the join is their concatenation
                 if isinstance(g, ast.Name) and isinstance(env.get(g.id), (ast.List, ast.Tuple)):
                     g = env[g.id]
                 if isinstance(g, (ast.List, ast.Tuple)):
@@ -295,6 +297,21 @@ class Writer:
         for s in stmts:
             if isinstance(s, ast.Expr):
                 c = s.value
+                # a list of byte pieces: pieces.append(x) adds the whole piece
+                if isinstance(c, ast.Call) and isinstance(c.func, ast.Attribute) and isinstance(c.func.value, ast.Name) \
+                        and c.func.value.id in getattr(self, 'listacc', ()) and isinstance(env.get(c.func.value.id), Seq) and c.func.attr == 'append' and len(c.args) == 1:
+                    v = self.expr(c.args[0], env, mod)
+                    if v is None:
+                        v = Seq([('RAW', self.u(c.args[0], env, mod))])
+                    env[c.func.value.id] = Seq(env[c.func.value.id] + v)
+                    continue
+                # any other expression statement: attributes written by the self-methods it calls are unknown afterwards
+                for n_ in ast.walk(c):
+                    if isinstance(n_, ast.Call) and isinstance(n_.func, ast.Attribute) and isinstance(n_.func.value, ast.Name) and n_.func.value.id == 'self':
+                        m_ = self.cx.idx.find_method(self.cls, n_.func.attr)
+                        if m_ is not None:
+                            for attr in self._written_attrs(m_):
+                                env.pop('self.' + attr, None)
                 # bytearray accumulation: packet.extend(x) / packet.append(x)
                 if isinstance(c, ast.Call) and isinstance(c.func, ast.Attribute) and isinstance(c.func.value, ast.Name) \
                         and isinstance(env.get(c.func.value.id), Seq) and c.func.attr in ('extend', 'append') and len(c.args) == 1:
@@ -313,6 +330,12 @@ class Writer:
                 t = s.targets[0]
                 if isinstance(t, ast.Name):
                     if isinstance(s.value, ast.Call) and U(s.value.func) in ('bytearray', 'bytes') and not s.value.args:
+                        env[t.id] = Seq()
+                    elif (isinstance(s.value, ast.List) and not s.value.elts) or (isinstance(s.value, ast.Call) and U(s.value.func) == 'list' and not s.value.args):
+                        # an empty list that may collect byte pieces for a final b''.join(...)
+                        if not hasattr(self, 'listacc'):
+                            self.listacc = set()
+                        self.listacc.add(t.id)
                         env[t.id] = Seq()
                     else:
                         self._store(env, t.id, s.value, mod)
